@@ -516,7 +516,11 @@ func (m *Machine) crcUpdate(fr *frame, crc *Term, tabV Value, data ByteSlice) Va
 		// symbolic length: small lengths are case-split (checksum = function of the bytes);
 		// longer data gets an uninterpreted function of (memory, offset, length) - a sound
 		// over-approximation that keeps only "same memory, same range => same checksum"
-		if !m.branch(m.tc.Cmp(OpULe, dl, Const(64, uint64(m.concBound)))) {
+		cb := m.concBound
+		if m.crcBound > 0 {
+			cb = m.crcBound - 1
+		}
+		if !m.branch(m.tc.Cmp(OpULe, dl, Const(64, uint64(cb)))) {
 			return m.tc.UF("crc32_range", 32, crc, data.obj.fold(m), data.off, dl)
 		}
 	}
